@@ -48,71 +48,81 @@ def decode_flat(codec, proto, ns, schema, out, fmt):
     return sw.flat_values(proto, codec.decode_ndjson(proto, ns, text, schema)), None
 
 
+def _walk_unions(env, t, ns, on_union, seen):
+    """Calls on_union(key, tags) for every union that a value of the closed type t (spelled in namespace ns) can contain; generic
+    definitions are entered with their type arguments substituted (a union over a type parameter is a different C++ type for
+    every instantiation, and the same type as any other union of those case types)."""
+    if isinstance(t, M.Union):
+        on_union(repr((tuple(M.qualify(c, ns) for _, c in t.cases), t.nullable)), tuple(tag for tag, _ in t.cases))
+        for _, c in t.cases:
+            _walk_unions(env, c, ns, on_union, seen)
+    elif isinstance(t, M.Opt):
+        _walk_unions(env, t.inner, ns, on_union, seen)
+    elif isinstance(t, (M.Vec, M.Arr)):
+        _walk_unions(env, t.inner, ns, on_union, seen)
+    elif isinstance(t, M.Map):
+        _walk_unions(env, t.key, ns, on_union, seen)
+        _walk_unions(env, t.value, ns, on_union, seen)
+    elif isinstance(t, M.Named):
+        tns = t.ns or ns
+        args = tuple(M.qualify(a, ns) for a in t.args)
+        for a in t.args:
+            _walk_unions(env, a, ns, on_union, seen)
+        d = env.by_ns[tns].find(t.name) if tns in env.by_ns else None
+        if d is None or repr((tns, t.name, args)) in seen or any(isinstance(x, M.TParam) for x in _flat_types(args)):
+            return
+        seen.add(repr((tns, t.name, args)))
+        sub = dict(zip(getattr(d, "params", ()) or (), args))
+        if isinstance(d, M.Record):
+            for _, ft in d.fields:
+                _walk_unions(env, M.substitute(M.qualify(ft, tns), sub), tns, on_union, seen)
+        elif isinstance(d, M.Alias):
+            _walk_unions(env, M.substitute(M.qualify(d.type, tns), sub), tns, on_union, seen)
+
+
+def _flat_types(ts):
+    for t in ts:
+        yield t
+        if isinstance(t, M.Named):
+            yield from _flat_types(t.args)
+        elif isinstance(t, (M.Opt, M.Vec, M.Arr)):
+            yield from _flat_types((t.inner,))
+        elif isinstance(t, M.Map):
+            yield from _flat_types((t.key, t.value))
+        elif isinstance(t, M.Union):
+            yield from _flat_types(tuple(c for _, c in t.cases))
+
+
 def unions_sharing_case_types(pkg):
     """{case-type list (as text): set of tag tuples} for the unions of a package tree whose case types (and null option) are
-    the same while their tags differ - one C++ type, and so one nlohmann serializer, for unions the model tells apart."""
+    the same while their tags differ - one C++ type, and so one nlohmann serializer, for unions the model tells apart.  Generic
+    definitions count with the type arguments they are used with anywhere in the tree."""
     found = {}
+    env = M.Env(pkg)
+    seen = set()
 
-    def walk(t, ns):
-        if isinstance(t, M.Union):
-            key = repr((tuple(M.qualify(c, ns) for _, c in t.cases), t.nullable))
-            found.setdefault(key, set()).add(tuple(tag for tag, _ in t.cases))
-            for _, c in t.cases:
-                walk(c, ns)
-        elif isinstance(t, M.Opt):
-            walk(t.inner, ns)
-        elif isinstance(t, (M.Vec, M.Arr)):
-            walk(t.inner, ns)
-        elif isinstance(t, M.Map):
-            walk(t.key, ns); walk(t.value, ns)
-        elif isinstance(t, M.Named):
-            for a in t.args:
-                walk(a, ns)
+    def on_union(key, tags):
+        found.setdefault(key, set()).add(tags)
 
     for p in pkg.all_packages():
         for d in p.defs():
+            if getattr(d, "params", None):
+                continue          # (entered through its uses, with the arguments given there)
             if isinstance(d, M.Record):
                 for _, ft in d.fields:
-                    walk(ft, p.namespace)
+                    _walk_unions(env, ft, p.namespace, on_union, seen)
             elif isinstance(d, M.Alias):
-                walk(d.type, p.namespace)
+                _walk_unions(env, d.type, p.namespace, on_union, seen)
             elif isinstance(d, M.Protocol):
                 for _, st, _ in d.steps:
-                    walk(st, p.namespace)
+                    _walk_unions(env, st, p.namespace, on_union, seen)
     return {k: v for k, v in found.items() if len(v) > 1}
 
 
 def _union_keys_reached(pkg, t):
     """keys (as in unions_sharing_case_types) of the unions that a value of type t (of the main package) can contain"""
-    env = M.Env(pkg)
-    keys, seen = set(), set()
-
-    def walk(t, ns):
-        if isinstance(t, M.Union):
-            keys.add(repr((tuple(M.qualify(c, ns) for _, c in t.cases), t.nullable)))
-            for _, c in t.cases:
-                walk(c, ns)
-        elif isinstance(t, M.Opt):
-            walk(t.inner, ns)
-        elif isinstance(t, (M.Vec, M.Arr)):
-            walk(t.inner, ns)
-        elif isinstance(t, M.Map):
-            walk(t.key, ns); walk(t.value, ns)
-        elif isinstance(t, M.Named):
-            tns = t.ns or ns
-            for a in t.args:
-                walk(a, ns)
-            d = env.by_ns[tns].find(t.name)
-            if d is None or (tns, t.name) in seen:
-                return
-            seen.add((tns, t.name))
-            if isinstance(d, M.Record):
-                for _, ft in d.fields:
-                    walk(ft, tns)
-            elif isinstance(d, M.Alias):
-                walk(d.type, tns)
-
-    walk(t, pkg.namespace)
+    keys = set()
+    _walk_unions(M.Env(pkg), t, pkg.namespace, lambda key, tags: keys.add(key), set())
     return keys
 
 
